@@ -45,6 +45,9 @@ pub struct DriveOpts {
     pub flood: u64,
     /// number of ordinary sessions that are run a second time under the clock seam
     pub warp: u64,
+    /// number of entry-pure long sessions (derive-only / attribute-on-types-only / impl-only)
+    pub pure: u64,
+    pub pure_factor: u64,
     /// the LD_PRELOAD library of the clock seam
     pub warp_lib: Option<PathBuf>,
     /// the sweep sessions and the first N ordinary sessions also write (request, output) pairs
@@ -167,7 +170,9 @@ fn spawn_session(exe: &Path, o: &DriveOpts, idx: u64) -> std::io::Result<Child> 
         .arg("--timeout")
         .arg(o.watchdog_s.to_string())
         .arg("--sweep-n")
-        .arg(o.sweep.to_string());
+        .arg(o.sweep.to_string())
+        .arg("--pure-factor")
+        .arg(o.pure_factor.to_string());
     if o.step_log {
         c.arg("--step-log");
     }
@@ -238,6 +243,7 @@ pub fn drive(o: &DriveOpts) -> Result<DriveSummary, String> {
     // longest first, so that the marathon sessions overlap with everything else
     let ids: Vec<u64> = (0..o.marathon)
         .map(|k| crate::session::MARATHON_BASE + k)
+        .chain((0..o.pure).map(|k| crate::session::PURE_BASE + k))
         .chain((0..o.sweep).map(|k| crate::session::SWEEP_BASE + k))
         .chain((0..o.flood).map(|k| crate::session::FLOOD_BASE + k))
         .chain((0..if o.warp_lib.is_some() { o.warp } else { 0 }).map(|k| crate::session::WARP_BASE + o.first_session + k))
@@ -584,6 +590,7 @@ fn session_params(o: &DriveOpts, idx: u64) -> SessionParams {
         min_steps: o.min_steps,
         max_steps: o.max_steps,
         sweep_n: o.sweep,
+        pure_factor: o.pure_factor,
     }
 }
 
@@ -647,6 +654,8 @@ fn attribute_crash(exe: &Path, o: &DriveOpts, idx: u64, pool: &Pool) -> Option<(
         .arg(&trace)
         .arg("--sweep-n")
         .arg(o.sweep.to_string())
+        .arg("--pure-factor")
+        .arg(o.pure_factor.to_string())
         .env_clear()
         .current_dir(&o.out)
         .stdin(Stdio::null())
